@@ -57,6 +57,31 @@ def rankAt (m : Mode) (f : Img Int) (fp : List (List Int)) (rank : Int) (p : Lis
   let s := gather m f fp p
   nthElement s (curRank s.length fp.length rank.toNat)
 
+/-! ### `currank` in the arithmetic the C++ uses -/
+
+/-- the three operations of `npy_intp(n * rank / double(N2))`: conversion of the 64-bit integers `n * rank`
+    and `N2` to the floating type, the division there, and the truncating conversion back. -/
+structure RankOps (α : Type) where
+  ofNat : Nat → α
+  div : α → α → α
+  trunc : α → Nat
+
+/-- binary64, as the compiled code (`Float.toUInt64` truncates towards zero; the quotient is non-negative) -/
+def floatRankOps : RankOps Float := ⟨Float.ofNat, (· / ·), fun x => x.toUInt64.toNat⟩
+
+/-- `currank` as the C++ evaluates it: `n * rank` is a product of 64-bit integers (exact), converted to the
+    floating type, divided by `double(N2)`, truncated. Generic in the arithmetic: the driver runs it with
+    `floatRankOps`; `C07_currank_double_eq_floor` instantiates it with every round-to-nearest of 53 bits. -/
+def curRankG {α : Type} (o : RankOps α) (n N2 rank : Nat) : Nat :=
+  if n ≠ N2 then o.trunc (o.div (o.ofNat (n * rank)) (o.ofNat N2)) else rank
+
+/-- `rank_filter<T>` at pixel `p` with `currank` evaluated through `o` -/
+def rankAtG {α : Type} (o : RankOps α) (m : Mode) (f : Img Int) (fp : List (List Int)) (rank : Int)
+    (p : List Int) : Option Int :=
+  if rank < 0 ∨ rank ≥ (fp.length : Int) then none else
+  let s := gather m f fp p
+  nthElement s (curRankG o s.length fp.length rank.toNat)
+
 /-- specification: `v` is the `k`-th smallest (0-based) of `xs`: fewer than or exactly `k` samples
     are smaller, more than `k` are smaller or equal. -/
 def IsKthSmallest (xs : List Int) (k : Nat) (v : Int) : Prop :=
@@ -174,6 +199,92 @@ def occursAtB (f t : Img Int) (y x : Nat) : Bool :=
   | [N0, N1], [Nt0, Nt1] => decide (y + Nt0 ≤ N0) && decide (x + Nt1 ≤ N1) && matchesAt f t y x
   | _, _ => false
 
+/-! ### template_match, generic in the arithmetic of `T` (float dtypes) -/
+
+/-- the operations `template_match<T>` performs on values of type `T` -/
+structure TmOps (α : Type) where
+  zero : α
+  sub : α → α → α
+  mul : α → α → α
+  add : α → α → α
+  gt : α → α → Bool
+
+def intTmOps : TmOps Int := ⟨0, (· - ·), (· * ·), (· + ·), fun a b => decide (a > b)⟩
+/-- `T = double` (SSE2 doubles, no FMA contraction: every operation rounds once) -/
+def floatTmOps : TmOps Float := ⟨0.0, (· - ·), (· * ·), (· + ·), fun a b => decide (a > b)⟩
+/-- `T = float`: every operation is performed and rounded in binary32 -/
+def float32TmOps : TmOps Float32 := ⟨0.0, (· - ·), (· * ·), (· + ·), fun a b => decide (a > b)⟩
+
+/-- `template_match<T>` at pixel `p`, operation by operation, in the arithmetic `o`:
+    `T diff2 = T(0); … const T delta = (val > tj ? val - tj : tj - val); diff2 += delta*delta;`.
+    `tmAtG intTmOps = tmAt`; the driver runs it with `floatTmOps` / `float32TmOps` for float images. -/
+def tmAtG {α : Type} (o : TmOps α) (m : Mode) (f : Img α) (tshape : List Nat) (t : Array α) (p : List Int) : α :=
+  (List.range (shapeSize tshape)).foldl (fun diff2 j =>
+    match fixPos m f.shape (addPos p (offsetOf tshape j)) with
+    | some q =>
+      let val := f.getD q o.zero
+      let tj := t.getD j o.zero
+      let delta := if o.gt val tj then o.sub val tj else o.sub tj val
+      o.add diff2 (o.mul delta delta)
+    | none => diff2) o.zero
+
+/-! ### mean_filter in the arithmetic of the C++ (`double sum`, `sum / n`) -/
+
+/-- `gather` for any value type (`zero` = the `cval` of `constant` mode, the only one the wrappers accept) -/
+def gatherG {α : Type} (zero : α) (m : Mode) (f : Img α) (fp : List (List Int)) (p : List Int) : List α :=
+  fp.filterMap fun k =>
+    match fixPos m f.shape (addPos p k) with
+    | some q => some (f.getD q zero)
+    | none => if m = .constant then some zero else none
+
+/-- the operations of `double sum = 0; … sum += val; … *rpos = sum / n;` -/
+structure MeanOps (α : Type) where
+  zero : α
+  add : α → α → α
+  div : α → α → α
+  ofNat : Nat → α
+
+def floatMeanOps : MeanOps Float := ⟨0.0, (· + ·), (· / ·), Float.ofNat⟩
+
+/-- `mean_filter<T>` at pixel `p`: the samples (already converted to double — exact for every float value and every
+    integer below `2^53`) are added one by one in scan order starting from `0`, the sum is divided by the number of
+    samples converted to double. The driver runs it with `floatMeanOps` (kind `meanf`). -/
+def meanAtG {α : Type} (o : MeanOps α) (m : Mode) (f : Img α) (fp : List (List Int)) (p : List Int) : α :=
+  let s := gatherG o.zero m f fp p
+  o.div (s.foldl o.add o.zero) (o.ofNat s.length)
+
+/-! ### majority_filter (`_morph.cpp: py_majority_filter`, wrapper in `morph.py`) -/
+
+/-- number of non-zero pixels of the `N × N` window with top-left corner `(y, x)` -/
+def windowCount (f : Img Int) (N y x : Nat) : Nat :=
+  ((List.range N).map fun dy => ((List.range N).filter fun dx =>
+    f.getD [((y + dy : Nat) : Int), ((x + dx : Nat) : Int)] 0 != 0).length).sum
+
+/-- the pixels `py_majority_filter` sets, in loop order: the output is cleared; nothing happens when
+    `rows < N || cols < N`; otherwise `for (y = 0; y != rows-N; ++y) for (x = 0; x != cols-N; ++x)` writes `true`
+    at `(y + N/2, x + N/2)` when the window with top-left corner `(y, x)` holds `count >= N*N/2` set pixels. -/
+def majorityMarks (f : Img Int) (N : Nat) : List (Nat × Nat) :=
+  match f.shape with
+  | [rows, cols] =>
+    if rows < N ∨ cols < N then [] else
+    (List.range (rows - N)).flatMap fun y =>
+      (((List.range (cols - N)).filter fun x => decide (N * N / 2 ≤ windowCount f N y x)).map
+        fun x => (y + N / 2, x + N / 2))
+  | _ => []
+
+/-- the window size the wrapper passes down: an even `N` is replaced by `N + 1` (with a warning) -/
+def majorityN (N : Nat) : Nat := if N % 2 = 0 then N + 1 else N
+
+/-- closed form: pixel `(Y, X)` is set iff the `N × N` window centred on it (top-left `(Y − N/2, X − N/2)`)
+    lies inside the image **and is not the last such window of its row or column** (`y < rows − N`, not `≤`),
+    and at least `⌊N²/2⌋` of its pixels are set. -/
+def majoritySpecB (f : Img Int) (N Y X : Nat) : Bool :=
+  match f.shape with
+  | [rows, cols] =>
+    decide (N / 2 ≤ Y) && decide (Y - N / 2 + N < rows) && decide (N / 2 ≤ X) && decide (X - N / 2 + N < cols) &&
+      decide (N * N / 2 ≤ windowCount f N (Y - N / 2) (X - N / 2))
+  | _ => false
+
 /-! ### driver entry -/
 
 def modeOf (a : Args) : Mode := (Mode.ofCode (a.nat "mode")).getD .reflect
@@ -192,12 +303,12 @@ def handle (a : Args) : String :=
     let fp := footprint bshape bc
     let rank := a.int "rank"
     let ps := allPos shape
-    s!"spec={showOptInts (ps.map (rankSpecAt m f fp rank))} model={showOptInts (ps.map (rankAt m f fp rank))} n2={fp.length}"
+    s!"spec={showOptInts (ps.map (rankSpecAt m f fp rank))} model={showOptInts (ps.map (rankAt m f fp rank))} dmodel={showOptInts (ps.map (rankAtG floatRankOps m f fp rank))} n2={fp.length}"
   | "median" =>
     let fp := footprint bshape bc
     let rank := medianRank bc
     let ps := allPos shape
-    s!"spec={showOptInts (ps.map (rankSpecAt m f fp rank))} model={showOptInts (ps.map (rankAt m f fp rank))} rank={rank}"
+    s!"spec={showOptInts (ps.map (rankSpecAt m f fp rank))} model={showOptInts (ps.map (rankAt m f fp rank))} dmodel={showOptInts (ps.map (rankAtG floatRankOps m f fp rank))} rank={rank}"
   | "mean" =>
     let fp := footprint bshape bc
     let ps := allPos shape
@@ -207,6 +318,43 @@ def handle (a : Args) : String :=
     let ps := allPos shape
     let dt := DT.ofName (a.str "dt")
     s!"spec={showInts (ps.map (tmSpecAt m f bshape bc))} model={showInts (ps.map (tmAt m f bshape bc))} wrap={showInts (ps.map (tmAtWrap dt m f bshape bc))} obs={showBools (ps.map (windowInside shape bshape))}"
+  | "tmf" =>
+    -- float images: `data`/`bc` = the values times `2^s` as exact integers (specification: exact SSD, scaled by
+    -- `4^s`), `fdata`/`fbc` = the same values as binary64 patterns (model: the arithmetic of `T`, bit for bit)
+    let ps := allPos shape
+    let fd := a.floats "fdata"
+    let ft := a.floats "fbc"
+    let modelF : List Float :=
+      if a.str "ft" == "f32" then
+        let g : Img Float32 := { shape := shape, data := (fd.map Float.toFloat32).toArray }
+        let t : Array Float32 := (ft.map Float.toFloat32).toArray
+        ps.map fun p => (tmAtG float32TmOps m g bshape t p).toFloat
+      else
+        let g : Img Float := { shape := shape, data := fd.toArray }
+        ps.map fun p => tmAtG floatTmOps m g bshape ft.toArray p
+    s!"spec={showInts (ps.map (tmSpecAt m f bshape bc))} exact={showInts (ps.map (tmAt m f bshape bc))} model={showFloats modelF} obs={showBools (ps.map (windowInside shape bshape))}"
+  | "meanf" =>
+    -- `data` = the values times `2^s` as exact integers (specification: exact sum, number of samples, sum of magnitudes),
+    -- `fdata` = the values as binary64 patterns (model: the double accumulation of the C++, bit for bit)
+    let fp := footprint bshape bc
+    let ps := allPos shape
+    let sp := ps.map (meanSpecParts m f fp)
+    let fabs : Img Int := { shape := shape, data := f.data.map Int.natAbs |>.map Int.ofNat }
+    let g : Img Float := { shape := shape, data := (a.floats "fdata").toArray }
+    s!"sum={showInts (sp.map (·.1))} n={showNats (sp.map (·.2))} asum={showInts (ps.map fun p => (meanSpecParts m fabs fp p).1)} model={showFloats (ps.map (meanAtG floatMeanOps m g fp))}"
+  | "currank" =>
+    -- `n`, `n2`, `rank`: lists of equal length; the C++ expression in binary64 against the integer floor
+    let ns := a.nats "n"
+    let n2s := a.nats "n2"
+    let rs := a.nats "rank"
+    let tr := (ns.zip (n2s.zip rs))
+    s!"model={showNats (tr.map fun (n, n2, r) => curRankG floatRankOps n n2 r)} spec={showNats (tr.map fun (n, n2, r) => curRank n n2 r)}"
+  | "majority" =>
+    let N := majorityN (a.nat "n")
+    let marks := majorityMarks f N
+    let N1 := shape.getD 1 0
+    let ps := (List.range (shapeSize shape)).map fun i => (i / N1, i % N1)
+    s!"spec={showBools (ps.map fun (y, x) => majoritySpecB f N y x)} model={showBools (ps.map fun q => marks.contains q)}"
   | "find" =>
     let t : Img Int := { shape := bshape, data := bc }
     let marks := findMarks f t
